@@ -441,6 +441,21 @@ func c13run(w *report.W) {
 		record(t, fmt.Sprintf("[anchors fixed #%d] ", i), 30)
 		record("steps:\n  - command: c\n    "+strings.ReplaceAll(strings.TrimSpace(t), "\n", "\n    ")+"\n", fmt.Sprintf("[anchors fixed #%d inside a step] ", i), 40)
 	}
+	// mapping keys of every scalar kind and magnitude (integers around the int64 / uint64 limits in every base, floats, infinities,
+	// booleans, null, timestamps, binary) at five positions
+	for _, k := range []string{"18446744073709551615", "18446744073709551616", "9223372036854775807", "9223372036854775808", "-9223372036854775808", "-9223372036854775809",
+		"0xFFFFFFFFFFFFFFFF", "0x8000000000000000", "0o1777777777777777777777", "0b1", "1_000", "+5", "-0", "1e400", "-1e400", ".inf", "-.inf", ".nan", "1.5", "1e3",
+		"true", "False", "~", "null", "2002-08-15", "2002-08-15T01:02:03Z", "!!binary aGk=", "!!str 5", "!!int \"7\"", "? [a, b]", "? {a: b}"} {
+		key := k
+		if !strings.HasPrefix(k, "? ") {
+			key = k + " "
+		}
+		record(key+": v\nsteps: []\n", "[scalar key at top level] ", 20)
+		record("env:\n  "+key+": v\nsteps: []\n", "[scalar key in env] ", 20)
+		record("steps:\n  - command: c\n    "+key+": v\n", "[scalar key in a command step] ", 20)
+		record("steps:\n  - command: c\n    agents:\n      "+key+": v\n      other: {"+strings.TrimPrefix(key, "? ")+": w}\n", "[scalar key in a nested mapping] ", 20)
+		record("steps:\n  - "+key+": v\n", "[scalar key as an unknown step] ", 20)
+	}
 	// groups nested in groups with a step at the bottom that falls back (unknown scalar / ill-typed command step / mapping
 	// without a kind): every enclosing group is reported once; inputs of <1 kB must parse within 60 s (they take microseconds)
 	for _, depth := range []int{1, 2, 3, 4, 6, 8, 10, 12, 14, 16, 18, 20, 22} {
@@ -491,7 +506,7 @@ func init() {
 		ID:               "C13",
 		CrashIsViolation: true,
 		Rule: "(i) every concatenation of <=5 (quick) / <=6 (thorough) tokens over a 22-token alphabet (steps:, '- ', newline, indent, command: a, wait, group: g, &x, *x, <<:, [ ] { } ':' '\"' a ~ !!binary ? , .inf); " +
-			"(iii) the C07 anchor / alias / merge grammar (<=3/4 deviations, incl. cycles) as a top-level document and inside a command step, C07's hand-written cycle shapes and its layered merges of 2..80 layers (must parse within 90 s), groups nested 1..22 deep over a step that falls back (within 60 s); (iv) every byte string of <=2/3 bytes over 46 YAML-significant / control / non-UTF-8 bytes, alone, at three positions of a document and (valid UTF-8 only) as an escaped JSON string used as key of the pipeline env, of nested unknown fields and of an unknown step; " +
+			"(iii) the C07 anchor / alias / merge grammar (<=3/4 deviations, incl. cycles) as a top-level document and inside a command step, C07's hand-written cycle shapes and its layered merges of 2..80 layers (must parse within 90 s), groups nested 1..22 deep over a step that falls back (within 60 s), 31 scalar / complex keys (integers at the int64 and uint64 limits in every base, floats, infinities, booleans, nulls, timestamps, tagged scalars) at five positions; (iv) every byte string of <=2/3 bytes over 46 YAML-significant / control / non-UTF-8 bytes, alone, at three positions of a document and (valid UTF-8 only) as an escaped JSON string used as key of the pipeline env, of nested unknown fields and of an unknown step; " +
 			"(ii) every generated pipeline document (<=1/2 deviations) and two base documents with every node replaced in turn by each of 12 values (null, string, int, bool, timestamp, [], [x], {}, {k: v}, [[x]], float, " +
 			"{steps: [wait]}), rendered as YAML or JSON. Oracle: Parse returns (fatal crashes and hangs are caught by a per-case journal / watchdog), never panics, and yields a hard error or a pipeline (+ warning); if usable: non-nil " +
 			"step list with one non-nil step per entry of the input step sequence (counted by an independent walk of yaml.v3's node graph with merges resolved), recursively inside groups; unknown steps marshal back to the input " +
